@@ -79,6 +79,21 @@ class Wide:
 class Narrow:
     x: int
 
+def repair(o):
+    """make a value that holds invalid members valid, in place"""
+    if isinstance(o, Node):
+        if not isinstance(o.v, int):
+            o.v = 0
+        for k in o.kids:
+            repair(k)
+    elif isinstance(o, (list, tuple)):
+        for k in o:
+            repair(k)
+    elif isinstance(o, dict):
+        for k in o.values():
+            repair(k)
+    return o
+
 AL = typing.TypeAliasType("AL", list[int])
 SAL = typing.TypeAliasType("SAL", "dict[str, list[int]]")
 NTy = typing.NewType("NTy", dict[str, int])
@@ -173,6 +188,12 @@ TYPES = {
     "dict[str, dict](bare)": ("dict[str, dict]", ["{'a': {'b': 1}}"], ["'{\"a\": {\"b\": [1]}}'", "\"{'a': {'b': [1]}}\""]),
     "'Item'@A": ("<bare string from module A>", ["A.Item(1)"], ["{'x': 1}", "{'x': '2'}"]),
     "'Item'@B": ("<bare string from module B>", ["B.Item('s')"], ["{'y': 's'}", "{'y': 3}"]),
+}
+# values holding an invalid member somewhere below a recursive position (see the fail_repair_retry rule)
+BROKEN = {
+    "Node": ["Node(1, [Node('bad')])", "Node(1, [Node(2, [Node(object())])])", "Node('bad')"],
+    "list[Node]": ["[Node(1, [Node('bad')])]", "[Node(1), Node(2, [Node(None)])]"],
+    "dict[str, Node]": ["{'r': Node(1, [Node('bad')])}"],
 }
 PARTNERS = [
     {"Union[int, str]", "Union[str, int]"}, {"int | None | str", "str | None | int"}, {"Literal[1, 2]", "Literal[2, 1]"},
@@ -485,6 +506,17 @@ def machine(col, seed, n_examples, steps):
                 self.hist.append(["mutate-input", name, how])
                 self.dirty = True
                 col.label("op:mutate-input")
+
+        @rule(key=st.sampled_from(sorted(BROKEN)), i=st.integers(0, 3), op=st.sampled_from(["marshal", "encode"]))
+        def fail_repair_retry(self, key, i, op):
+            """a call that fails on an invalid member, the caller repairs that very object, the same call again"""
+            src = BROKEN[key][i % len(BROKEN[key])]
+            x = eval(src, pool())  # noqa: S307
+            self._call(op, key, x, src)
+            pool()["repair"](x)
+            self.dirty = True
+            col.label("op:fail-repair-retry")
+            self._call(op, key, x, f"repair({src})")
 
         @rule()
         def clear_caches(self):
